@@ -13,7 +13,7 @@
    transport with the same id). *)
 From Coq Require Import List ZArith Bool.
 Import ListNotations.
-From Goat Require Import Model.Client Model.Server Model.Sys Proofs.SysLog Proofs.SysProofs Proofs.SysFacts Proofs.SysC01 Proofs.SysC01b Proofs.SysC01c Proofs.SysC01d.
+From Goat Require Import Model.Client Model.Server Model.Sys Proofs.SysLog Proofs.SysProofs Proofs.SysFacts Proofs.SysC01 Proofs.SysC01b Proofs.SysC01c Proofs.SysC01d Proofs.SysC01f.
 Open Scope Z_scope.
 
 (* every run of the system is a run of the client model and a run of the server model *)
@@ -97,6 +97,21 @@ Theorem C01_complete : forall f ls s, Sys.lrun (pol_c01 f) Sys.init ls = Some s 
   forall c k, nth_error (calls (cl s)) c = Some k -> k_pc k = PRet.
 Proof. exact SysC01d.C01_complete. Qed.
 Print Assumptions C01_complete.
+
+(* "never none", OK-form: [C01_complete] only says "returned" and [fault_free] admits cancellation, so a run in which
+   every call returns an error satisfies it. With nobody cancelling (no_cancel), payloads non-negative and f preserving
+   non-negativity (a negative token stands for an undecodable message), every call has returned OK with f (its own
+   request): proved from the server invariant OKS (every frame on its way to the transport is an OK-shaped reply or is
+   excused by a frame READ under its id that is not a well-formed unary request) and the client invariant UX (without
+   fault and cancellation a unary result is the classification of an envelope the call took). *)
+Theorem C01_complete_ok : forall f ls s,
+  (forall x, 0 <= x -> 0 <= f x) ->
+  Sys.lrun (pol_c01 f) Sys.init ls = Some s -> fault_free ls = true -> no_cancel ls = true ->
+  Sys.quiescent s = true ->
+  (forall c k, nth_error (calls (cl s)) c = Some k -> k_unary k = true /\ k_pc k <> PParked /\ 0 <= k_payload k) ->
+  forall c k, nth_error (calls (cl s)) c = Some k -> In (EvUnaryRet c (UOk (f (k_payload k)))) (Client.log (cl s)).
+Proof. exact SysC01f.C01_complete_ok. Qed.
+Print Assumptions C01_complete_ok.
 
 (* the hypotheses are met by concrete, non-trivial runs: three calls one after the other, and three calls
    in flight at once; each returns mix3 of its own payload, and the final state is quiescent *)
